@@ -341,6 +341,25 @@ func c12Err(err error) string {
 
 const c12Sentinel = -1
 
+// c12Bounded runs f and gives up after a few seconds (a changed wheel may block a public method or the
+// ticker forever); a panic of f is re-raised in the caller so that verifh records it.
+func c12Bounded(f func()) bool {
+	done := make(chan any, 1)
+	go func() {
+		defer func() { done <- recover() }()
+		f()
+	}()
+	select {
+	case p := <-done:
+		if p != nil {
+			panic(p)
+		}
+		return true
+	case <-time.After(3 * time.Second):
+		return false
+	}
+}
+
 // TestVerifC12WB: white box. The wheel is built by the real constructor, its run loop is stopped, and the
 // loop's handlers are called directly with the requests the public methods would have sent.
 func TestVerifC12WB(t *testing.T) {
@@ -418,10 +437,15 @@ func TestVerifC12(t *testing.T) {
 			panic(err)
 		}
 		stopped := false
+		hung := false // a call did not return: the rest of the section is not executed
 		waitLoop := func() {
 			// the event loop is single-threaded: once it accepts this no-op, the previous request is done
-			if err := tw.RemoveTimer(c12Sentinel); err != nil && err != ErrClosed {
-				panic(err)
+			if !c12Bounded(func() {
+				if err := tw.RemoveTimer(c12Sentinel); err != nil && err != ErrClosed {
+					panic(err)
+				}
+			}) {
+				hung = true
 			}
 		}
 		waitLoop()
@@ -448,6 +472,9 @@ func TestVerifC12(t *testing.T) {
 					}()
 					return false, note
 				}
+				if len(fakeT.Chan()) > 0 {
+					return false, "undelivered" // the previous tick is still in the ticker's buffer
+				}
 				fakeT.Tick()
 				deadline := time.Now().Add(2 * time.Second)
 				for i := 0; len(fakeT.Chan()) > 0; i++ {
@@ -459,7 +486,10 @@ func TestVerifC12(t *testing.T) {
 				return true, ""
 			}
 			if !stopped {
-				syncT.c <- time.Time{}
+				if !c12Bounded(func() { syncT.c <- time.Time{} }) {
+					hung = true
+					return false, "TIMEOUT-tick"
+				}
 				return true, ""
 			}
 			for i := 0; i < 200; i++ {
@@ -473,22 +503,32 @@ func TestVerifC12(t *testing.T) {
 			return false, "undelivered"
 		}
 		step := func(op []string) string {
+			if hung {
+				return "TIMEOUT-skipped"
+			}
 			var err error
+			call := func(f func() error) {
+				if !c12Bounded(func() { err = f() }) {
+					hung = true
+				}
+			}
 			switch op[0] {
 			case "set":
-				err = tw.SetTimer(c12Key(op[1]), verifh.Atoi(op[2]), time.Duration(verifh.Atoi(op[3])))
+				call(func() error {
+					return tw.SetTimer(c12Key(op[1]), verifh.Atoi(op[2]), time.Duration(verifh.Atoi(op[3])))
+				})
 			case "move":
-				err = tw.MoveTimer(c12Key(op[1]), time.Duration(verifh.Atoi(op[2])))
+				call(func() error { return tw.MoveTimer(c12Key(op[1]), time.Duration(verifh.Atoi(op[2]))) })
 			case "remove":
-				err = tw.RemoveTimer(c12Key(op[1]))
+				call(func() error { return tw.RemoveTimer(c12Key(op[1])) })
 			case "tick":
 				if ok, note := tick(); !ok {
 					return note
 				}
 			case "drain":
-				err = tw.Drain(sink.exec)
+				call(func() error { return tw.Drain(sink.exec) })
 			case "stop":
-				tw.Stop() // a second Stop panics: recorded by verifh as PANIC
+				call(func() error { tw.Stop(); return nil }) // a second Stop panics: recorded by verifh as PANIC
 				stopped = true
 				if !verifh.SettleGoroutines(base-1, 2*time.Second) {
 					return "stopped LOOP-ALIVE"
@@ -497,10 +537,16 @@ func TestVerifC12(t *testing.T) {
 			default:
 				return "bad-op"
 			}
+			if hung {
+				return "TIMEOUT-call"
+			}
 			if err != nil {
 				return c12Err(err)
 			}
 			waitLoop()
+			if hung {
+				return "TIMEOUT-loop"
+			}
 			return sink.collect(base)
 		}
 		return step, func() {
